@@ -82,7 +82,8 @@ def run_stat(
             """Cigar string analysis"""
             cigar = mapping.cigar
             all_cigars = ["".join(x) for _, x in itertools.groupby(cigar, key=str.isdigit)]
-            if len(all_cigars) == 2:
+            if len(all_cigars) == 2 and all_cigars[1] == "=":
+                # a single run of matches; a single run of mismatches or of inserted bases is not an exact match
                 total_perfect += 1
             for cnt in range(0, len(all_cigars) - 1, 2):
                 if all_cigars[cnt + 1] == "D":
